@@ -12,6 +12,14 @@ supported fragment raises NotConst and the rule reports `not recognised` (exit 2
 from core import NotConst, kids, strip, switch_cases, CASTS
 
 
+def expr_text_safe(n):
+    try:
+        from core import expr_text
+        return expr_text(n)[:80]
+    except Exception:
+        return "?"
+
+
 class Abort(Exception):
     """abort() / failed assert reached"""
 
@@ -114,12 +122,15 @@ def _wrap(types, n, v):
 
 
 class Folder:
-    def __init__(self, fn, calls=None, max_steps=20000):
+    def __init__(self, fn, calls=None, max_steps=20000, depth=0, inline=False):
         self.fn = fn
         self.types = fn.tu.types
         self.calls = calls or {}
         self.max_steps = max_steps
         self._lay = {}
+        self.depth = depth
+        self.inline = inline      # fold calls of functions defined in the unit (pure helpers) instead of refusing them
+        self._tabs = {}
 
     def truth(self, v):
         if not isinstance(v, Aff):
@@ -164,6 +175,9 @@ class Folder:
             return rec[path]
         # a union view (the packed word) or a member that was never written: assemble it from the leaves stored so far
         lay = self.layout(t)
+        if lay is not None and path not in lay and any(k2.startswith(path + ".") for k2 in lay):
+            # a whole sub-record (handed on to a helper): its leaves
+            return {k2[len(path) + 1:]: v2 for k2, v2 in rec.items() if k2.startswith(path + ".")}
         if lay is None or path not in lay:
             raise NotConst("member %s" % path)
         off, w = lay[path]
@@ -237,9 +251,17 @@ class Folder:
                     return _wrap(self.types, n, v)
             return v
         if k == "MemberExpr":
-            return self.load(self.lv(n))
+            try:
+                key = self.lv(n)
+            except NotConst:
+                return self.member_of_value(n)
+            return self.load(key)
         if k == "InitListExpr":
-            return {}
+            return self.initlist(n)
+        if k == "ImplicitValueInitExpr":
+            return 0
+        if k == "ArraySubscriptExpr":
+            return self.table_read(n)
         if k == "CallExpr":
             cal = n.get("callee")
             if cal == "__builtin_expect":
@@ -249,6 +271,15 @@ class Folder:
             if cal in self.calls:
                 args = [self.ev(a) for a in n["c"][1:]]
                 return self.calls[cal](*args)
+            if self.inline and cal:
+                f = self.fn.tu.func(cal)
+                if f is not None and getattr(f, "body", None) is not None and self.depth < 12:
+                    args = [self.ev(a) for a in n["c"][1:]]
+                    sub = Folder(f, calls=self.calls, max_steps=self.max_steps, depth=self.depth + 1, inline=True)
+                    sub._tabs = self._tabs
+                    r = sub.run(args, steps=self.steps)
+                    self.steps = sub.steps
+                    return r
             raise NotConst("call of %s" % cal)
         if k == "UnaryOperator":
             op = n.get("op")
@@ -416,6 +447,8 @@ class Folder:
                         val = self.ev(kids(v)[0])
                         if isinstance(val, dict):
                             self.env[v["d"]] = dict(val)
+                        elif isinstance(val, list):
+                            self.env[v["d"]] = val
                         else:
                             self.env[v["d"]] = _wrap(self.types, v, val) if v.get("t") is not None else val
                     else:
@@ -486,10 +519,105 @@ class Folder:
         else:
             self.ev(s)
 
-    def run(self, args):
+    # ------------------------------------------------------------ records and tables as rvalues
+    def initlist(self, n):
+        t = self.types[n["t"]] if n.get("t") is not None else {}
+        rec = self.fn.tu.recs_by_id.get(t.get("rec")) if t.get("rec") is not None else None
+        ch = kids(n)
+        if rec is None:
+            if t.get("arr") is not None:
+                return [self.ev(c) for c in ch]
+            raise NotConst("initialiser list of a non-record (%s)" % t.get("s"))
+        out = {}
+
+        def put(prefix, v):
+            if isinstance(v, dict):
+                for k2, v2 in v.items():
+                    out[(prefix + "." + k2) if prefix else k2] = v2
+            else:
+                out[prefix] = v
+        if rec.get("kind") == "union":
+            uf = n.get("ufield")
+            if uf is None or not ch:
+                return out
+            put(uf, self.ev(ch[0]))
+            return out
+        fields = [f for f in rec.get("fields", []) if f.get("n") or f.get("rec") is not None]    # unnamed bit-fields take no initialiser
+        for f, c in zip(fields, ch):
+            put(f["n"], self.ev(c))
+        return out
+
+    def member_of_value(self, n):
+        """member of a record that is not held in a variable (a call result, a compound literal)"""
+        names = []
+        x = n
+        while x is not None and x.get("k") == "MemberExpr":
+            if x.get("n"):
+                names.append(x["n"])
+            base = x
+            x = strip(x["c"][0]) if x.get("c") else None
+            while x is not None and x.get("k") in CASTS and x.get("c"):
+                x = strip(x["c"][0])
+        v = self.ev(x)
+        if not isinstance(v, dict):
+            raise NotConst("member of a non-record value")
+        tmp = ("__tmp__", ".".join(reversed(names)), x.get("t"))
+        self.env["__tmp__"] = v
+        try:
+            return self.load(tmp)
+        finally:
+            del self.env["__tmp__"]
+
+    def table_obj(self, b):
+        """the (nested) list a subscript base stands for"""
+        b = strip(b)
+        while b is not None and b.get("k") in CASTS and b.get("c"):
+            b = strip(b["c"][0])
+        if b is not None and b.get("k") == "StringLiteral" and isinstance(b.get("s"), str):
+            return list(b["s"].encode("latin-1", "replace") + b"\0")
+        if b is not None and b.get("k") == "ArraySubscriptExpr":
+            outer = self.table_obj(b["c"][0])
+            idx = self.ev(b["c"][1])
+            if isinstance(idx, Aff):
+                _undecided(idx.sg, lambda t: idx.c + idx.k * t, "table index %r depends on the parameter" % idx)
+            if not isinstance(outer, list) or not (0 <= idx < len(outer)):
+                raise Abort("index %s outside a table" % idx)
+            return outer[idx]
+        if b is None or b.get("k") != "DeclRefExpr":
+            raise NotConst("subscript of a computed array: %s" % expr_text_safe(b))
+        if b.get("d") in self.env and isinstance(self.env[b["d"]], list):
+            return self.env[b["d"]]
+        key = (self.fn.name, b.get("n"))
+        if key not in self._tabs:
+            from core import init_value
+            g = self.fn.tu.global_var(b.get("n"), func=self.fn.name) or self.fn.tu.global_var(b.get("n"))
+            vals = None
+            if g is not None:
+                vals = g.get("val") if "val" in g else init_value(g.get("init"))
+            self._tabs[key] = vals
+        vals = self._tabs[key]
+        if not isinstance(vals, list):
+            raise NotConst("array %s has no constant initialiser" % b.get("n"))
+        return vals
+
+    def table_read(self, n):
+        vals = self.table_obj(n["c"][0])
+        idx = self.ev(n["c"][1])
+        if isinstance(idx, Aff):
+            _undecided(idx.sg, lambda t: idx.c + idx.k * t, "table index %r depends on the parameter" % idx)
+        if not isinstance(vals, list) or not (0 <= idx < len(vals)):
+            raise Abort("index %s outside a table of %s" % (idx, len(vals) if isinstance(vals, list) else "?"))
+        v = vals[idx]
+        if isinstance(v, list):
+            return v
+        if not isinstance(v, int):
+            raise NotConst("non-integer table entry")
+        return v
+
+    def run(self, args, steps=0):
         """args: values of the parameters in order -> returned value"""
         self.env = {p["d"]: (dict(v) if isinstance(v, dict) else v) for p, v in zip(self.fn.params, args)}
-        self.steps = 0
+        self.steps = steps
         try:
             self.st(self.fn.body)
         except _Return as r:
